@@ -63,7 +63,9 @@ func optString(o evt.SubOpts) string {
 	return strings.Join(p, "+")
 }
 
-var scriptNames = []string{"", "unsubSelf", "unsubNext", "subNew", "clearOwn", "clearAll", "pubColliding", "pubOwn", "clearOwnAndResubscribe", "clearAllAndResubscribe", "pubCollidingEmptyThenSubscribeTwoAndPublish", "clearOwnPubEmptyThenSubscribeTwoAndPublish"}
+var scriptNames = []string{"", "unsubSelf", "unsubNext", "subNew", "clearOwn", "clearAll", "pubColliding", "pubOwn", "clearOwnAndResubscribe", "clearAllAndResubscribe", "pubCollidingEmptyThenSubscribeTwoAndPublish", "clearOwnPubEmptyThenSubscribeTwoAndPublish", "panics"}
+
+const scriptPanics = 12
 
 func (o Op) String() string {
 	switch o.K {
@@ -387,6 +389,8 @@ func alphaReentrant() []Op {
 	for sc := 1; sc <= 11; sc++ {
 		l = append(l, subS(0, 0, evt.SubOpts{}, sc))
 	}
+	// handlers that panic whenever they are invoked: a plain one, a Sequential one, a Once one
+	l = append(l, subS(0, 0, evt.SubOpts{Sequential: true}, scriptPanics), subS(0, 2, evt.SubOpts{}, scriptPanics), subS(0, 1, evt.SubOpts{Once: true}, scriptPanics))
 	for _, sc := range []int{1, 3, 4, 7} {
 		l = append(l, subS(0, 1, evt.SubOpts{Once: true}, sc))
 	}
